@@ -20,6 +20,7 @@ import (
 	"github.com/taurusgroup/multi-party-sig/pkg/protocol"
 	"github.com/taurusgroup/multi-party-sig/protocols/cmp"
 	"github.com/taurusgroup/multi-party-sig/protocols/cmp/presign"
+	"github.com/taurusgroup/multi-party-sig/protocols/doerner"
 )
 
 // A state-level cheater: a real party whose round objects are altered around Finalize, so that everything it
@@ -39,6 +40,7 @@ type cheat struct {
 	zeroConst bool
 	newPhi    *polynomial.Exponent
 	newSigma  *zksch.Proof
+	applied   bool // a state alteration (doerner:kinv) was carried out
 }
 
 func typeName(s interface{}) string {
@@ -286,6 +288,7 @@ func (p *proxy) Finalize(out chan<- *round.Message) (round.Session, error) {
 		p.c.recommit(next)
 		p.c.zeroDeal(next)
 		p.c.after(next)
+		p.c.doernerAfter(next)
 		if p.c.observe != nil {
 			p.c.observe(next)
 		}
@@ -536,4 +539,69 @@ func CmpWrongShares(s *Session, cheater party.ID, sid []byte, mk func() protocol
 			return wrap(r, c), nil
 		}
 	}, sid)
+}
+
+// DoernerSignCheat: one side of a Doerner signing session computes with other inputs than key generation fixed
+// (DoernerAlg.tla); every message it sends is well-formed.
+//
+//	"share"   its key share plus one
+//	"public"  another public key (its own plus G) in the second consistency check and in its own verification
+//	"ot"      the OT correlation of ANOTHER key generation (alt: that key generation's configs): the shares of all three
+//	          multiplications are off
+//	"kinv"    (Receiver) unmasks with another 1/kB than the one it entered the multiplications with
+func DoernerSignCheat(recv, send party.ID, cr *doerner.ConfigReceiver, cs *doerner.ConfigSender, altR *doerner.ConfigReceiver, altS *doerner.ConfigSender,
+	msg []byte, cheater party.ID, rule string, sid []byte) (*Session, func() bool) {
+	applied := func() bool { return true }
+	cr = CloneConfig(cr).(*doerner.ConfigReceiver)
+	cs = CloneConfig(cs).(*doerner.ConfigSender)
+	g := cr.Public.Curve()
+	switch rule {
+	case "share":
+		if cheater == recv {
+			cr.SecretShare = g.NewScalar().Set(cr.SecretShare).Add(one(g))
+		} else {
+			cs.SecretShare = g.NewScalar().Set(cs.SecretShare).Add(one(g))
+		}
+	case "public":
+		if cheater == recv {
+			cr.Public = cr.Public.Add(g.NewBasePoint())
+		} else {
+			cs.Public = cs.Public.Add(g.NewBasePoint())
+		}
+	case "ot":
+		if cheater == recv {
+			cr.Setup = altR.Setup
+		} else {
+			cs.Setup = altS.Setup
+		}
+	}
+	s := DoernerSign(recv, send, cr, cs, msg, sid)
+	if rule == "kinv" {
+		c := &cheat{rule: "doerner:kinv"}
+		applied = func() bool { return c.applied }
+		s.Makers[recv] = two(func() protocol.StartFunc {
+			inner := doerner.SignReceiver(cr, recv, send, msg, Pool)
+			return func(sessionID []byte) (round.Session, error) {
+				r, err := inner(sessionID)
+				if err != nil {
+					return nil, err
+				}
+				return wrap(r, c), nil
+			}
+		}, sid, true)
+	}
+	return s, applied
+}
+
+func (c *cheat) doernerAfter(next round.Session) {
+	if c.rule != "doerner:kinv" || typeName(next) != "round2R" {
+		return
+	}
+	if !setUnexported(next, "kBInv", func(old interface{}) interface{} {
+		x := old.(curve.Scalar)
+		return next.Group().NewScalar().Set(x).Add(one(next.Group()))
+	}) {
+		panic("doerner:kinv: field kBInv not found")
+	}
+	c.applied = true
 }
